@@ -275,6 +275,121 @@ def _chunk(jobs):
     return [run_history(j) for j in jobs]
 
 
+# ------------------------------------------------------------- update == fit on the combined data (UpdateMerge.tla)
+UM_INVS = ["UpdateIsFitOnCombined", "LabelsOnceInOrder", "NothingLost", "NewRowsWin", "AppendIsConcatenation", "ResendReplaces"]
+UM_KINDS = ("int", "offset", "step", "datetime", "period")
+
+
+def um_index(labels, kind):
+    """Integer labels of the model -> a pandas index of the given kind (order-preserving relabeling).  Consecutive
+    labels become a RangeIndex for the integer kinds, as a user slicing a longer frame would have."""
+    consecutive = all(b == a + 1 for a, b in zip(labels, labels[1:]))
+    if kind in ("int", "offset", "step"):
+        f = {"int": lambda l: l, "offset": lambda l: l + 1000, "step": lambda l: 3 * l}[kind]
+        if consecutive:
+            step = 3 if kind == "step" else 1
+            return pd.RangeIndex(f(labels[0]), f(labels[-1]) + step, step)
+        return pd.Index([f(l) for l in labels])
+    if kind == "datetime":
+        return pd.DatetimeIndex([pd.Timestamp("2021-03-01") + pd.Timedelta(days=l) for l in labels])
+    return pd.PeriodIndex([pd.Period("2021-03", freq="M") + l for l in labels])
+
+
+def um_frame(rows, kind):
+    labels = [r[0] for r in rows]
+    vals = np.array([r[1] for r in rows], dtype=float)
+    return pd.DataFrame({"a": vals, "b": -vals}, index=um_index(labels, kind))
+
+
+def um_replay(case):
+    """A TLC-generated history fit(B1), update(B2), ... replayed into (a) a user-defined detector that records what
+    _fit receives and (b) real detectors against a fresh one fitted on the combined table."""
+    import warnings
+
+    warnings.filterwarnings("ignore")
+    from skchange.change_detectors import PELT, MovingWindow
+    from skchange.change_detectors.base import ChangeDetector
+
+    class Recorder(ChangeDetector):
+        _tags = {"fit_is_empty": False, "capability:multivariate": True}
+
+        def __init__(self):
+            self.seen = []
+            super().__init__()
+
+        def _fit(self, X, y=None):
+            self.seen.append(X.copy())
+            return self
+
+        def _predict(self, X):
+            return ChangeDetector._format_sparse_output([])
+
+    batches = [[(l, 10 * (i + 1) + l) for l in b] for i, b in enumerate(case["batches"])]
+    combined = [tuple(r) for r in case["combined"]]
+    fails = []
+    for kind in UM_KINDS:
+        tag = {"index": kind, "history": case["kind"]}
+        want = um_frame(combined, kind)
+        try:
+            rec = Recorder().fit(um_frame(batches[0], kind))
+            for b in batches[1:]:
+                rec.update(um_frame(b, kind))
+            got = rec.seen[-1]
+            same = list(got.index) == list(want.index) and got["a"].tolist() == want["a"].tolist() and got["b"].tolist() == want["b"].tolist()
+            if not same:
+                fails.append(("update_is_not_fit_on_the_combined_data",
+                              {**tag, "entry": "user-defined detector", "fit_received": [[str(i), float(v)] for i, v in zip(got.index, got["a"])][:12],
+                               "combined": [[str(i), float(v)] for i, v in zip(want.index, want["a"])][:12]}))
+        except Exception as e:
+            fails.append(("raises", {**tag, "entry": "user-defined detector", "error": repr(e)[:200]}))
+        if len(combined) < 4:
+            continue
+        for mk in (lambda: PELT(min_segment_length=1, penalty_scale=0.05), lambda: MovingWindow(bandwidth=1, threshold_scale=None, level=0.3)):
+            try:
+                ref = mk().fit(want)
+                out_ref = canon(ref.predict(want))
+            except Exception:
+                continue  # the combined table itself is not acceptable to this detector
+            try:
+                det = mk().fit(um_frame(batches[0], kind))
+                for b in batches[1:]:
+                    det.update(um_frame(b, kind))
+            except ValueError:
+                continue  # an intermediate table may be too short for this detector: not this property
+            except Exception as e:
+                fails.append(("raises", {**tag, "entry": type(ref).__name__, "error": repr(e)[:200]}))
+                continue
+            attr = "penalty_" if hasattr(ref, "penalty_") else "threshold_"
+            if float(getattr(ref, attr)) != float(getattr(det, attr)) or canon(det.predict(want)) != out_ref:
+                fails.append(("update_is_not_fit_on_the_combined_data",
+                              {**tag, "entry": type(ref).__name__, attr: [float(getattr(det, attr)), float(getattr(ref, attr))]}))
+    return fails
+
+
+def _um_chunk(cases):
+    return [um_replay(c) for c in cases]
+
+
+def update_merge_stage(chk, tier, wd):
+    L, mb = (4, 3) if tier == "quick" else (5, 3)
+    cs = dict(L=L, MaxBatches=mb, MergeMode="code", Emit=False, NSlices=1, Slice=0)
+    stages.model_check(chk, "UpdateMerge", cs, UM_INVS, wd=wd, label=f"A:update-merge-L{L}")
+    cases = stages.emit_cases(chk, "UpdateMerge", cs, wd=wd, label="B:update-merge", invariants=("EmitCase",), nslices=8)
+    if tier == "quick":   # all histories of two batches, a seeded third of those of three
+        rng = np.random.default_rng(chk.seed)
+        cases = [c for c in cases if len(c["batches"]) == 2 or rng.random() < 0.34]
+    with ProcessPoolExecutor(max_workers=stages.NCPU) as ex:
+        chunks = [cases[i::64] for i in range(64) if cases[i::64]]
+        for chunk, ress in zip(chunks, ex.map(_um_chunk, chunks)):
+            for case, fails in zip(chunk, ress):
+                chk.case({"stage": "B:update-merge", **case}, nontrivial=case["kind"] != "append", key=sha(["um", case["batches"]]))
+                chk.traces += 1
+                for clause, obs in fails:
+                    chk.violation({"stage": "B:update-merge", "um_case": case, "observed": obs}, clause,
+                                  {"clause": clause, "stage": "update-merge", "index": obs.get("index"), "history": obs.get("history"),
+                                   "entry": obs.get("entry")})
+
+
 def run(tier: str) -> int:
     chk = Check(PROP, tier)
     chk.rule = ("stage A: all histories up to MaxLen over an alphabet of ~70 calls (2 detectors x {set_params x2, clone, deepcopy, fit_predict/fit_transform/update_predict x4 datasets, "
@@ -282,12 +397,16 @@ def run(tier: str) -> int:
                 "private scorer object, fit tuning none/one/both; stage B: histories of length 3 (a seeded slice, all in "
                 "thorough) and sampled longer ones, each executed on the compatible detector pairs out of 6 "
                 "(PELT, MovingWindow, Seeded/Circular binary segmentation, CAPA, MVCAPA, StatThresholdAnomaliser).  "
+                "Update-merge stage: every history fit(B1), update(B2)[, update(B3)] over ALL non-empty label sets of 0..L-1 "
+                "(appended, overlapping, re-sent, interleaved, gappy) x 5 index kinds, through a user-defined detector that records "
+                "what _fit receives and through PELT / tuned MovingWindow against a fresh fit on the combined table.  "
                 "Non-trivial = the history contains a result-producing call after at least one other call on the shared "
                 "scorer or the same detector; distinct by hash of (history, pair).")
     chk.assumptions = ["TLC/SANY and the Json module", "'the data given to the last fit' of a scorer object includes a "
                        "detector's in-place refit (the property's own anchor)", "sktime's clone/reset are exercised, not specified",
                        "bitwise-equal results are expected because the fresh object runs the same code on the same numbers"]
     with Workdir(PROP) as wd:
+        update_merge_stage(chk, tier, wd)
         cases = []
         configs = [("shared", "none"), ("shared", "both"), ("shared", "d1"), ("private", "none")]
         maxlen = 3   # ~70 calls per state: 342 k histories of length <= 3 per configuration; length 4 (24 M) is sampled below
@@ -338,6 +457,10 @@ def run(tier: str) -> int:
 
 def replay(body) -> int:
     rec = body["case"]
+    if "um_case" in rec:
+        fails = um_replay(rec["um_case"])
+        print(fails)
+        return 1 if fails else 0
     fails, _ = run_history((rec["case"], rec["pair"]))
     print(fails)
     return 1 if fails else 0
